@@ -226,14 +226,20 @@ func screens(c *mon.Case, r *rand.Rand) {
 	}
 	sc := screen{s}
 	var hist []string
+	fixed := []int{6 + r.Intn(20), 10 + r.Intn(60)}
 	desc := func() string {
 		return fmt.Sprintf("mode %q after commands %v; screen limits %d..%d", s.UI.VerifModeName(), hist, sc.MinLines(), sc.MaxLines())
 	}
 	render := func() bool {
 		feat := map[string]string{"mode": modeClass(s.UI.VerifModeName())}
-		hs := heights(sc, r, false)
+		// the session's fixed heights first: the same composite is rendered again and
+		// again at the same height while the state below it changes (anything a
+		// long-lived composite remembers between renders is then stale)
+		hs := append([]int(nil), fixed...)
+		hs = append(hs, heights(sc, r, false)...)
 		// like view.Print, heights below the minimum only print a message
 		hs = append(hs, 1, sc.MinLines()-1)
+		hs = append(hs, fixed...)
 		for _, h := range hs {
 			if h < 0 {
 				continue
@@ -259,13 +265,33 @@ func screens(c *mon.Case, r *rand.Rand) {
 	if !render() {
 		return
 	}
-	cmds := []string{"d 3", "goto 0", "e", "s", "s", "memory memory", "d 1", "q", "s", "q", "d 100000", "g 5", "e", "s", "regmod x1"}
+	if r.Intn(2) == 0 { // half of the sessions go straight into the emulator
+		// emulation starts at the cursor, which must be on an instruction line
+		first := []string{"entrypoint", "goto 1", "goto 2"}[r.Intn(3)]
+		hist = append(hist, first, "e")
+		if res := s.Exec(first); res.Panicked || res.Err != nil {
+			return
+		}
+		if res := s.Exec("e"); res.Panicked || res.Err != nil {
+			return
+		}
+		if s.UI.VerifModeName() == "emulate" {
+			c.Count("screen_sessions_in_emulator", 1)
+		}
+		if !render() {
+			return
+		}
+	}
+	cmds := []string{"d 3", "goto 0", "entrypoint", "goto 1", "e", "s", "s", "memory memory", "d 1", "q", "s", "q", "d 100000", "g 5", "e", "s", "regmod x1"}
 	for i := 0; i < 12; i++ {
 		cmd := cmds[r.Intn(len(cmds))]
 		if r.Intn(3) == 0 {
 			_, cur, _ := listingLen(s)
 			_ = cur
 			cmd = fmt.Sprintf("goto %d", r.Intn(60))
+		}
+		if s.UI.VerifModeName() == "emulate" && r.Intn(2) == 0 {
+			cmd = "s" // keep stepping: every step may add rows to the register table
 		}
 		if s.UI.VerifDepth() == 1 && cmd == "q" {
 			continue
@@ -298,7 +324,7 @@ func listingLen(s *uichk.Session) (int, int, bool) { return 0, 0, false }
 func main() {
 	mon.Main(mon.Spec{
 		Prop: "C24",
-		Rule: "case = (view state, granted height): listing views of generated programs (incl. tiny ones) at every cursor position, memory views over generated sparse/overlay/absent memories at every cursor, register views over 0..40 constant registers with and without the instruction pointer and with over-wide values, and the composite screens of the disassembler, emulator and memory-view modes reached by driving real commands; heights from the declared minimum to the maximum (200 when unbounded; all of them for small listings and in the thorough tier, min/max/4 random otherwise); non-trivial = listing state with the cursor in the last n rows or n below the content height, any memory/register/screen state; distinct by state",
+		Rule: "case = (view state, granted height): listing views of generated programs (incl. tiny ones) at every cursor position, memory views over generated sparse/overlay/absent memories at every cursor, register views over 0..40 constant registers with and without the instruction pointer and with over-wide values, and the composite screens of the disassembler, emulator and memory-view modes reached by driving real commands (each session re-renders two fixed heights after every command, emulator sessions keep stepping); heights from the declared minimum to the maximum (200 when unbounded; all of them for small listings and in the thorough tier, min/max/4 random otherwise); non-trivial = listing state with the cursor in the last n rows or n below the content height, any memory/register/screen state; distinct by state",
 		Explanation: "oracle: rows written = newlines in the captured stdout (+1 for a trailing partial row); Print must not panic, must write at most the granted rows, and a view whose declared minimum equals its maximum must write exactly that many rows; composite screens are judged for panic and row count only",
 		Assumptions: []string{"views reached through verif hooks; stdout captured through a redirected os.Stdout", "register states hold constants only (documented requirement)"},
 		Cases: func(t string) int {
@@ -313,7 +339,7 @@ func main() {
 			}
 			return 10000
 		},
-		RequiredCounts: []string{"listing_views", "memory_views", "empty_memory_views", "register_views", "screen_sessions"},
+		RequiredCounts: []string{"listing_views", "memory_views", "empty_memory_views", "register_views", "screen_sessions", "screen_sessions_in_emulator"},
 		Run:            run,
 	})
 }
